@@ -1,3 +1,4 @@
+import Carquet.Proofs.SpecFileUsize
 import Carquet.Proofs.SpecWriterPage
 import Carquet.Proofs.SnappyComp
 import Carquet.Proofs.SnappySpec
@@ -350,6 +351,36 @@ theorem readDataPages_written (o : FileReal.Oracle) (cfg : Config) (codec : Nat)
       unfold readDataPages
       simp only [hne, if_false, h1, pageHdrOfWritten, h2, ih]
       simp
+
+/-- **`total_uncompressed_size`**: the independent reader's sum of page-header lengths and uncompressed
+page sizes over a written chunk is Σ (header + uncompressed body) of its page records — what the
+writer records in the chunk metadata after fix F23 -/
+theorem chunkUsize_written (o : FileReal.Oracle) (cfg : Config) (codec : Nat)
+    (hcodec : codec = 0 ∨ codec = 1 ∨ codec = 5 ∨ codec = 7) (c : Col) :
+    ∀ (ps : List PageRec) (fuel : Nat), ps.length < fuel → (∀ r ∈ ps, PageFacts o codec c r) →
+      chunkUsize fuel (pagesBytes (deps o) ps) = some (sumUsize (deps o) ps)
+  | [], fuel, hfuel, _ => by
+    cases fuel with
+    | zero => omega
+    | succ f => simp [chunkUsize, pagesBytes, sumUsize]
+  | r :: ps, fuel, hfuel, h => by
+    cases fuel with
+    | zero => omega
+    | succ f =>
+      have hf := h r (by simp)
+      have h1 := readRawPage_written o cfg codec hcodec r (pagesBytes (deps o) ps) hf.ok.1 (headerSizes_of_facts hf)
+      have ih := chunkUsize_written o cfg codec hcodec c ps f (by simp at hfuel; omega)
+        (fun x hx => h x (by simp [hx]))
+      have hne : r.bytes (deps o) ++ pagesBytes (deps o) ps ≠ [] := by
+        intro he
+        have := pageBytes_length_pos hf
+        have hl := congrArg List.length he
+        simp only [List.length_append, List.length_nil] at hl
+        omega
+      rw [pagesBytes_cons, chunkUsize_of_raw cfg codec _ _ f hne h1]
+      simp only [ih, Option.map_some, Option.some.injEq, RawPage.usize, pageHdrOfWritten, sumUsize, List.map_cons,
+        List.sum_cons, PageRec.usize, PageRec.bytes_eq, List.length_append]
+      omega
 
 /-! ### the chunk -/
 
